@@ -47,7 +47,7 @@ _MISSING = object()
 
 
 def schedules(ctx, module, cfg, project, timeout=1200, extra_key="", max_len=600, project_init=None,
-              delta=False):
+              delta=False, targeted=None):
     """Transition-cover schedules of tla/<module>.tla under tla/<cfg>.
 
     Runs TLC exhaustively (all invariants of the cfg are checked) with the labelled state graph
@@ -55,7 +55,9 @@ def schedules(ctx, module, cfg, project, timeout=1200, extra_key="", max_len=600
     `project(action, args, post_state) -> dict`.  Returns (info, behaviours_steps) where
     behaviours_steps is a list of step lists — or, with `project_init(init_state) -> dict`
     (specs with several initial states), a list of `{"init": .., "steps": [..]}`.
-    delta=True: a step only carries the keys that changed (the engines' driver accumulates them).  The result only depends on the spec, the cfg and
+    delta=True: a step only carries the keys that changed (the engines' driver accumulates them).
+    targeted(g) -> extra paths (edge index lists): a schedule family aimed at a step *sequence* that
+    edge coverage alone does not force; they are appended (info["targeted_paths"] = their number).  The result only depends on the spec, the cfg and
     this code, so it is cached under work/cache (like ctx.tlc(cache=True))."""
     import inspect
     spec_files = [os.path.join(verif.TLA, module + ".tla"), os.path.join(verif.TLA, cfg),
@@ -67,6 +69,7 @@ def schedules(ctx, module, cfg, project, timeout=1200, extra_key="", max_len=600
     import hashlib
     key += hashlib.sha1((inspect.getsource(project) + inspect.getsource(schedules) + inspect.getsource(_delta)
                          + extra_key + ("delta" if delta else "")
+                         + (inspect.getsource(targeted) if targeted else "")
                          + (inspect.getsource(project_init) if project_init else "")).encode()).hexdigest()[:8]
     cdir = os.path.join(verif.WORK, "cache")
     cpath = os.path.join(cdir, "sched-%s-%s.json" % (cfg.replace(".cfg", ""), key))
@@ -85,6 +88,9 @@ def schedules(ctx, module, cfg, project, timeout=1200, extra_key="", max_len=600
             pass
     r, g = dump_graph(ctx, module, cfg, timeout=timeout)
     paths = cover(ctx, g, max_len=max_len)
+    ncover = len(paths)
+    if targeted:
+        paths = paths + targeted(g)
     memo = {}
 
     def pe(e):      # the projection of a step only depends on the edge
@@ -101,7 +107,8 @@ def schedules(ctx, module, cfg, project, timeout=1200, extra_key="", max_len=600
     actions = {}
     for (_, _, a, _) in g.edges:
         actions[a] = actions.get(a, 0) + 1
-    info = {"states": g.nstates, "transitions": len(g.edges), "cover_paths": len(paths), "generated": r.generated,
+    info = {"states": g.nstates, "transitions": len(g.edges), "cover_paths": ncover,
+            "targeted_paths": len(paths) - ncover, "generated": r.generated,
             "depth": r.depth, "wall_s": round(r.wall_s, 2), "actions": actions,
             "init": g.state(g.init[0])}
     ctx.cov.setdefault("coverage_actions", {}).update(actions)
